@@ -428,7 +428,10 @@ INFER_UNIVERSE = ("types enumerated by TLC (MC_Infer): T = all primitive kinds, 
 def plan_C04(tier, seed):
     return infer_plan("c04", tier, ["encoding-rejected", "for-error", "for-unresolvable"],
                       INFER_UNIVERSE + "C04: the real json.Marshal of every value, decoded, must validate against Resolve(ForType(T)); "
-                      "TLC checks the same on the model (Sound). Non-trivial = struct/container types; distinct by type")
+                      "TLC checks the same on the model (Sound). Family O: the same for ForType(T, options) with TypeSchemas entries "
+                      "for user struct types (one type, several types, none; entries built with spare slice capacity; three calls "
+                      "on one options value), wherever the specified result accepts the encoding. Non-trivial = struct/container types; distinct by type",
+                      fams=("T", "S", "X", "O"))
 
 
 def plan_C09(tier, seed):
